@@ -31,7 +31,7 @@ CLAIMS = [
     },
     {
         "id": "C10",
-        "technique": "static analysis: MIR panic provenance (text conversions, hole-dependent lookups, first-element unwraps with dominance-proved guards), HIR diverging-arm table with who-may-construct side conditions, stripped-arena typestate, exit-path dominance",
+        "technique": "static analysis: MIR panic provenance (text conversions, hole-dependent lookups, first-element unwraps with dominance-proved guards), HIR diverging-arm table with who-may-construct side conditions, stripped-arena typestate, exit-path dominance, inventory of positional index sites (typed HIR)",
         "level_text": "Decides six exact necessary conditions of front-end totality: (1) no unwrap/expect of a text-to-value conversion "
                       "outside the audited 'total on the token language' table; (2) no unwrap of a normal-form lookup that is None for an "
                       "unsolved hole (code before the error test runs on rejected programs); (3) every unwrap of the first/last/next "
@@ -45,7 +45,9 @@ CLAIMS = [
                       "first-element invariants are declared by the source, not proved), termination, that diagnostic locations lie inside "
                       "the file. Capacity conversions (usize->u32) out of scope. Added after round-2 seeds and agent reports: string-slice "
                       "bounds by symbolic value flow (no constant byte offsets), partial helpers of zydeco_syntax reached from the front end, "
-                      "readers of the cyclic-able seals table (F31: `def L : VType = L` overflowed the stack), bounded format directives (F34).",
+                      "readers of the cyclic-able seals table (F31: `def L : VType = L` overflowed the stack), bounded format directives (F34). "
+                      "Round 3: an inventory of the 56 positional index / range-slice sites of the hand-written front end with the reason "
+                      "each index is in range (F49: `components[position]` panicked in the checker); keyed arena lookups are not inventoried.",
     },
     {
         "id": "C15",
